@@ -91,6 +91,7 @@ type ContractSet struct {
 	AtomicOnly   []string    // pkgDir|T.f : only sync/atomic may touch the field
 	Guarded      [][3]string // pkgDir, T.f, T.lock : every access needs the lock held
 	TypeInvQ     []*Clause
+	ScriptRely   []*Clause // what unknown code guarantees for every object of a type, however it ends (two-state)
 	AbruptRely   []*Clause // what unknown code leaves behind when it panics (two-state, over a held value)
 	AbruptHavoc  []string  // "T.f": jspreserved only on normal completion
 	Macros       map[string]string
@@ -213,6 +214,16 @@ func parseContractFile(cs *ContractSet, path, pkgDir string) {
 				cs.AbruptHavoc = append(cs.AbruptHavoc, pkgDir+"|"+f)
 			}
 			cs.Scan = append(cs.Scan, fmt.Sprintf("assumed: script execution that ends in a panic may change %s only as the abruptrely clauses say (%s:%d)", strings.TrimPrefix(l, "abrupthavoc "), filepath.Base(path), ln+1))
+		case strings.HasPrefix(l, "scriptrely "):
+			// scriptrely <type> <var> <two-state clause>: assumed of unknown code for every object of the type
+			f := strings.Fields(strings.TrimPrefix(l, "scriptrely "))
+			if len(f) >= 3 {
+				c := mk("scriptrely", strings.Join(f[2:], " "))
+				c.Owner = &Contract{PkgDir: pkgDir, PkgName: pkgName, Func: "scriptrely", File: path}
+				c.ObsName, c.ObsType = f[1], f[0]
+				cs.ScriptRely = append(cs.ScriptRely, c)
+				cs.Scan = append(cs.Scan, fmt.Sprintf("assumed: across unknown code every existing %s satisfies %s (%s:%d)", f[0], strings.Join(f[2:], " "), filepath.Base(path), ln+1))
+			}
 		case strings.HasPrefix(l, "abruptrely "):
 			// abruptrely <type> <var> <two-state clause>
 			f := strings.Fields(strings.TrimPrefix(l, "abruptrely "))
@@ -911,7 +922,7 @@ func (cs *ContractSet) genOverlay(sp *srcPkg, contracts []*Contract, axioms []*C
 			}
 		}
 	}
-	for _, cl := range append(append([]*Clause{}, cs.TypeInvQ...), cs.AbruptRely...) {
+	for _, cl := range append(append(append([]*Clause{}, cs.TypeInvQ...), cs.AbruptRely...), cs.ScriptRely...) {
 		if cl.Owner.PkgDir != sp.dir || cl.FnName != "" {
 			continue
 		}
